@@ -31,7 +31,7 @@
 (***************************************************************************)
 EXTENDS Naturals, Sequences, FiniteSets, TLC, Json
 
-CONSTANTS MaxFields, FieldIds, GenTypes, MaxId, Emit
+CONSTANTS MaxFields, FieldIds, GenTypes, MaxId, MaxMapEntries, Emit
 
 B(v) == [s |-> "b", t |-> "", v |-> v]
 Sym(s, t, v) == [s |-> s, t |-> t, v |-> v]
@@ -44,11 +44,11 @@ Scalars == {"BOOL","I8","I16","I32","I64","DOUBLE","BINARY"}
 
 \* type codes
 BinCode(ty) == CASE ty = "BOOL" -> 2 [] ty = "I8" -> 3 [] ty = "DOUBLE" -> 4 [] ty = "I16" -> 6 [] ty = "I32" -> 8
-                 [] ty = "I64" -> 10 [] ty = "BINARY" -> 11 [] ty = "STRUCT" -> 12 [] ty = "MAP" -> 13
+                 [] ty = "I64" -> 10 [] ty = "BINARY" -> 11 [] ty \in {"STRUCT", "STRUCTP"} -> 12 [] ty = "MAP" -> 13
                  [] ty = "SET" -> 14 [] ty = "LIST" -> 15
 CompCode(ty) == CASE ty = "BOOL" -> 2 [] ty = "I8" -> 3 [] ty = "I16" -> 4 [] ty = "I32" -> 5 [] ty = "I64" -> 6
                   [] ty = "DOUBLE" -> 7 [] ty = "BINARY" -> 8 [] ty = "LIST" -> 9 [] ty = "SET" -> 10
-                  [] ty = "MAP" -> 11 [] ty = "STRUCT" -> 12
+                  [] ty = "MAP" -> 11 [] ty \in {"STRUCT", "STRUCTP"} -> 12     \* STRUCTP: element held through a pointer, same wire type
 
 \* unsigned LEB128 of a small natural, as literal bytes
 RECURSIVE UV(_)
@@ -128,14 +128,14 @@ Sub1Values == {Val("STRUCT", 0, "", "", <<>>),
                Val("STRUCT", 0, "", "", <<Fld(1, Sc("I64", 2)), Fld(2, Sc("BOOL", 1))>>)}
 
 Ids == 0..MaxId
-ElemTypes == {"I32","BINARY","STRUCT"}
-ElemValues(t) == IF t = "STRUCT" THEN Sub1Values ELSE {Sc(t, i) : i \in Ids}
+ElemTypes == {"I32","BINARY","STRUCT","STRUCTP"}
+ElemValues(t) == IF t \in {"STRUCT","STRUCTP"} THEN Sub1Values ELSE {Sc(t, i) : i \in Ids}
 
 TypeChoices ==
   {[ty |-> t, e |-> "", k |-> ""] : t \in Scalars \cup {"STRUCT"}}
   \cup {[ty |-> "LIST", e |-> e, k |-> ""] : e \in ElemTypes \cup {"I64","DOUBLE"}}
   \cup {[ty |-> "SET", e |-> e, k |-> ""] : e \in {"I32","BINARY"}}
-  \cup {[ty |-> "MAP", e |-> e, k |-> k] : k \in {"I32","BINARY"}, e \in {"I64","BINARY","STRUCT"}}
+  \cup {[ty |-> "MAP", e |-> e, k |-> k] : k \in {"I32","BINARY"}, e \in {"I64","BINARY","STRUCT","STRUCTP"}}
 
 ValuesOf(tc) ==
   CASE tc.ty \in Scalars -> {Sc(tc.ty, i) : i \in Ids}
@@ -144,6 +144,9 @@ ValuesOf(tc) ==
                             \cup {Val("LIST", 0, tc.e, "", <<a, b>>) : a \in ElemValues(tc.e), b \in ElemValues(tc.e)}
     [] tc.ty = "SET"     -> {Val("SET", 0, tc.e, "", <<>>), Val("SET", 0, tc.e, "", <<Sc(tc.e, 1)>>)}
     [] tc.ty = "MAP"     -> {Val("MAP", 0, tc.e, tc.k, <<>>)} \cup {Val("MAP", 0, tc.e, tc.k, <<Sc(tc.k, 1), a>>) : a \in ElemValues(tc.e)}
+                            \cup (IF MaxMapEntries >= 2     \* two entries: the member order on the wire is then free
+                                  THEN {Val("MAP", 0, tc.e, tc.k, <<Sc(tc.k, 1), a, Sc(tc.k, 2), b>>) : a \in ElemValues(tc.e), b \in ElemValues(tc.e)}
+                                  ELSE {})
 
 Nil == Val("NIL", 0, "", "", <<>>)
 
